@@ -120,6 +120,9 @@ var c05Families = []*family{
 	{name: "rand", ctors: []string{"NewFile"}, paths: []string{"math/rand", "crypto/rand", "x/rand", "y/rand1", "z/rand2"},
 		names:   map[string]string{"x/rand": "rand", "y/rand1": "rand1", "z/rand2": "rand2"},
 		aliases: []string{"rand", "rand1"}, prefixes: []string{"p"}, maxRefs: 4, freeRefs: 4, wrappers: []int{0}, anon: true},
+	{name: "cgo", ctors: []string{"NewFile"}, paths: []string{"C", "b/C", "c/C", "fmt"},
+		names:   map[string]string{"b/C": "C", "c/C": "C"},
+		aliases: []string{"C", "C1"}, prefixes: []string{"p"}, maxRefs: 4, freeRefs: 4, wrappers: []int{0}, anon: true, preambleOpts: [][]string{nil, {"#include <a.h>"}}},
 }
 
 func runC05(r *ev.Recorder) {
